@@ -1,4 +1,9 @@
 CLAIMED = {
+    'C11': {
+        'text': "Class-hierarchy analysis of the listener wiring over all ~77 classes under Parametric/AbstractParameter: which attributes each concrete class registers (kinds from the constructor chain and the repository's annotations), which dirty flags guard its caches and which registered attributes those caches read (transitively through self methods and properties), and a must-summary over the CFG of the *resolved* handle_parameter_changed/handle_model_changed (super()/helper calls followed): every dependent flag is set dirty and listeners are notified on every path. Plus: every self.<member> on the update path resolves (Parametric.__getattr__ modelled), every tensor setter / in-place write notifies, and Optimizer notifies between an in-place step and the next evaluation. The quantifier 'every model class, every parameter kind' is exactly what the class table enumerates; the suite has no staleness test for most classes.",
+        'note': "Decides the wiring (a necessary condition: a missing invalidation or notification makes some update sequence return a stale value); does not decide numerical equality with a freshly built model. Kinds of constructor arguments are trusted from annotations; unannotated ones are refined through from_json feeders or reported undecided.",
+        'technique': "class-hierarchy + CFG must-analysis of change handlers, member resolution, def-use of in-place writes",
+    },
     'C18': {
         'text': "Exhaustive abstract interpretation of the checkpoint writer over the file typestate {name,name.new,name.old}->{absent,complete,partial}: every crash prefix of every path, for every flag combination the resolved call sites can pass, closed under restart-after-crash. Shows that a complete checkpoint always survives and that the checkpoint name is never a truncated file. Finite state space, fully enumerated; this is the quantifier of the property (all crash points, any number of consecutive interrupted writes), which no test can reach.",
         'note': "Trusted: POSIX rename/replace are atomic and raise on a missing source; open(...,'w') truncates immediately; a with-block that exits normally leaves a complete file. Power-loss durability (fsync) and the content written are not decided.",
